@@ -31,6 +31,14 @@ func getWalkerFn(root string) walkerFn {
 				if underReplacedDir(root, path) {
 					return filepath.SkipDir
 				}
+				if f != nil && f.IsDir() {
+					// the directory itself was reported (and may have been
+					// replaced by the writer: by a socket - ENXIO -, a
+					// looping symlink - ELOOP) before it could be listed
+					if fi, lerr := os.Lstat(filepath.Join(root, path)); lerr == nil && !fi.IsDir() {
+						return filepath.SkipDir
+					}
+				}
 				return err
 			}
 
